@@ -1,4 +1,6 @@
 mod c13;
+mod emitprops;
+mod summary;
 mod hirprops;
 mod specgen;
 mod specio;
@@ -43,7 +45,9 @@ fn main() {
         "C13" => c13::run(&tier, seed, &out),
         "C19" => c19::run(&tier, seed, &out),
         "C05" | "C06" | "C07" | "C08" | "C14" | "C15" | "C17" => hirprops::run(&prop, &tier, seed, &out),
-        "C10" | "C11" | "C12" => fsprops::run(&prop, &tier, seed, &out),
+        "C18" | "C04" | "C03" => emitprops::run(&prop, &tier, seed, &out),
+        // the emitted-crate stage of properties whose first stage is on the HIR: `lnv E05 ..` etc.
+        p if p.starts_with('E') => emitprops::run(&format!("C{}", &p[1..]), &tier, seed, &out),
         _ => {
             eprintln!("usage: lnv <property> --tier quick|thorough --seed N --out report.json");
             std::process::exit(2);
